@@ -155,6 +155,9 @@ SHAPES = {
     "power-or-root": lambda s: re.search(r"\^|\*\*|[⁰¹²³⁴⁵⁶⁷⁸⁹]|sqrt|cbrt|sqr", s) is not None,
     "bang-run-multiple-of-65536": lambda s: any(n >= 65536 and n % 65536 == 0 for n in bang_runs(s)),
     "nesting-at-least-1000": lambda s: max_nesting(s) >= 1000,
+    "count-recursion-with-non-finite-argument": lambda s: re.search(
+        r"\b(range|rand_binom|_poisson|rand_poisson|rand_geom|linspace|take|drop|str_repeat|catalan|fibonacci|binom|"
+        r"falling_factorial|factorial)\s*\([^()]*(\binf\b|NaN)", s) is not None,
     "question-mark-in-string-interpolation": lambda s: re.search(r'"[^"]*\{[^}"]*\?', s) is not None,
 }
 
@@ -333,6 +336,64 @@ def soup(rng, n):
     return out
 
 
+FN_SIG_RE = re.compile(r"^fn\s+([^\s(<]+)\s*(?:<[^>]*>)?\s*\(([^)]*)\)", re.M)
+ARG_POOL = {
+    "Scalar": ["0", "1", "-1", "2", "0.5", "-0.5", "1e308", "-1e308", "1e-320", "NaN", "inf", "-inf", "255", "256", "65536",
+               "3.5", "170", "171", "1114111", "1114112", "55296", "-0", "9007199254740993", "18446744073709551616"],
+    "String": ['""', '"a"', '"ä"', '"🙂🙂"', '"abc def"', '"{"', '"%"', '"%Y-%m-%d"', '"%Q"', '"2020-01-01"', '"UTC"',
+               '"0x"', '"1e400"', '"\\n"', '"a" + "b"', 'str_repeat("ab", 1000)'],
+    "Bool": ["true", "false"],
+    "DateTime": ["now()", 'datetime("2020-02-29 12:00 UTC")', "from_unixtime_s(253402207200)", "from_unixtime_s(-377705023201)",
+                 'datetime("0001-01-01 00:00 UTC")', "today()"],
+    "List": ["[]", "[1]", "[1, 2, 3]", "[NaN]", "[inf, -inf]", "[[1], [2]]", '["a", "b"]', "[1 m, 2 cm]", "range(1, 50)", "[true]",
+             "[now()]", "[0, 0, 0]", "[1e308, 1e308]"],
+    "Fn": ["sqrt", "sin", "id", "sqr", "is_nan", "str_length", "len", "head"],
+    "Dim": ["1 m", "0 m", "-1 m", "NaN m", "inf s", "1e308 kg", "1e-320 m", "2.5 cm", "1 m^2", "3 s", "1 deg", "100 %", "1 byte",
+            "0 K", "-300 K", "1 m/s", "1 EiB", "1 Qm", "1 qm^3"],
+}
+
+
+COUNT_RECURSIVE = {"range", "rand_binom", "rand_poisson", "rand_geom", "linspace", "take", "drop", "str_repeat", "catalan",
+                   "fibonacci", "binom", "falling_factorial", "factorial"}
+
+
+def stdlib_signatures():
+    """(name, [parameter types]) of every function of numbat/modules whose parameter list is on one line"""
+    out = []
+    for f in corpus_files():
+        if os.sep + "modules" + os.sep not in f:
+            continue
+        for m in FN_SIG_RE.finditer(open(f, encoding="utf-8").read()):
+            if m.group(1).startswith("_"):
+                continue          # internal helpers are not part of the library's interface
+            params = [p.strip() for p in m.group(2).split(",") if p.strip()]
+            out.append((m.group(1), [(p.split(":", 1)[1].strip() if ":" in p else "?") for p in params]))
+    return out
+
+
+def stdlib_call(rng, sig):
+    """a call of a library function with arguments of (mostly) the declared kinds, chosen from edge values"""
+    name, types = sig
+    everything = [v for vs in ARG_POOL.values() for v in vs]
+
+    def pick(t):
+        if t.startswith("List"):
+            return rng.choice(ARG_POOL["List"])
+        if t.startswith("Fn"):
+            return rng.choice(ARG_POOL["Fn"])
+        if t in ARG_POOL:
+            return rng.choice(ARG_POOL[t])
+        if t == "?" or rng.random() < 0.15:
+            return rng.choice(everything)
+        return rng.choice(ARG_POOL["Dim"] + ARG_POOL["Scalar"])
+    args = [pick(t) for t in types]
+    if name in COUNT_RECURSIVE:
+        # open finding C08-count-recursion-on-non-finite-argument (one instance is in the corpus); every further
+        # instance would only cost a watchdog period; huge finite counts are compute-bound by construction
+        args = [a if not (re.search(r"inf|NaN", a) or HUGE_LITERAL_RE.search(a)) else "3" for a in args]
+    return "%s(%s)" % (name, ", ".join(args))
+
+
 def corpus_files():
     fs = []
     for root in (os.path.join(common.REPO, "examples"), os.path.join(common.REPO, "numbat", "modules")):
@@ -403,6 +464,9 @@ def run(chk):
         cases.append((0, mutate(rng, texts[f]), "mutation"))
     for s in soup(rng, 500 if quick else 8000):
         cases.append((rng.choice([0, 1]), s, "soup"))
+    sigs = stdlib_signatures()
+    for _ in range(700 if quick else 12000):
+        cases.append((0, stdlib_call(rng, rng.choice(sigs)), "stdlib-call"))
 
     outs = run_crash(binary, [(m, s) for m, s, _ in cases])
 
@@ -471,7 +535,8 @@ def run(chk):
         "distinct_nontrivial": len({h for f, h in shapes}),
         "rule": "corpus (known crashers and past findings) + extreme literals/operator runs/deep nesting + grammar-generated programs "
                 "(expressions, lets, non-recursive functions, units, dimensions, structs, strings with format specs, lists, date-times) + "
-                "mutations of windows of examples/*.nbt and numbat/modules/**/*.nbt + random Unicode/token soup; each in a clone of a "
+                "mutations of windows of examples/*.nbt and numbat/modules/**/*.nbt + random Unicode/token soup + calls of every library "
+                "function (signatures read from numbat/modules) with edge-value arguments of the declared kinds; each in a clone of a "
                 "prelude session or in a fresh context; distinct = distinct source texts (every text is run through the whole pipeline)",
         "exhaustive": False,
         "families": dict(fam), "outcomes": dict(outcome_hist),
